@@ -9,5 +9,6 @@ let dispatch fnum z nat entry (is : int list) (xs : Obj.t list) : Obj.t list res
   | "extract_vars", [n] -> run_extract_vars fnum (nat n) xs
   | "apply_gbs", [n] -> run_apply_gbs fnum (nat n) xs
   | "update", [n] -> run_update fnum (nat n) xs
+  | "problem", [n] -> run_problem fnum (nat n) xs
   | "rhs", regime :: phase :: fabric :: n :: ass -> run_rhs fnum (z regime) (z phase) (z fabric) (nat n) (List.map z ass) xs
   | _ -> Err OtherError
